@@ -136,6 +136,8 @@ func (w *relayWorld) policyGo() PermissionHandler {
 			}
 			return !(cip != nil && cip.Equal(w.clients[0].IP) && cport == w.clients[0].Port && ip.Equal(w.peers[0].IP))
 		}
+	case 3: // a deny-list entry for an IPv6 host
+		return func(_ net.Addr, ip net.IP) bool { return !ip.Equal(w.peers[3].IP) }
 	}
 	return nil
 }
@@ -145,6 +147,8 @@ func (w *relayWorld) policyCoq() string {
 		return fmt.Sprintf("(fun c i => negb (i =? %s)%%N)", coqIP(w.peers[1].IP))
 	case 2:
 		return fmt.Sprintf("(fun c i => negb (addr_eqb c %s && (i =? %s)%%N))", coqNetAddr(w.clients[0]), coqIP(w.peers[0].IP))
+	case 3:
+		return fmt.Sprintf("(fun c i => negb (i =? %s)%%N)", coqIP(w.peers[3].IP))
 	}
 	return "(fun c i => true)"
 }
@@ -213,6 +217,8 @@ func newRelayWorld(t *testing.T, rng *verifsim.RNG, cfg relayCfg) *relayWorld {
 		{IP: net.IPv4(10, 1, 0, 1).To4(), Port: 7001},
 		{IP: net.ParseIP("fd00:1::1"), Port: 7000},
 		{IP: net.IPv4(10, 1, 0, 3).To4(), Port: 7000},
+		{IP: net.ParseIP("fd00:1::2"), Port: 7000}, // a second IPv6 host
+		{IP: net.ParseIP("fd00:1::1"), Port: 7001}, // the first one's other port
 	}
 	sip := serverIP4
 	if cfg.listenerV6 {
@@ -1516,6 +1522,33 @@ func (w *relayWorld) template(k int, ports []int) {
 			w.evPeer(ports[0], false, p1.addr)
 			w.evChanData(ci, num)
 		}
+	case 12: // an IPv6 allocation: permissions and bindings are per IPv6 host (and the policy is asked about the real address)
+		w.evAllocate(ci, w.newTid(), ok(ci), attrSpec{2, 17}, attrSpec{}, attrSpec{2, 2}, false, ports[3], false)
+		a6 := peerSpec{addr: w.peers[3]}
+		b6 := peerSpec{addr: w.peers[5]}
+		a6b := peerSpec{addr: w.peers[6]}
+		first, other := a6, b6
+		if rng.Bool() {
+			first, other = b6, a6
+		}
+		if rng.Bool() {
+			w.evCreatePerm(ci, w.newTid(), ok(ci), []peerSpec{first})
+		} else {
+			w.evChannelBind(ci, w.newTid(), ok(ci), attrSpec{2, num}, &first)
+		}
+		for _, q := range []peerSpec{first, other, a6b} {
+			qq := q
+			w.evSend(ci, &qq, true)
+			w.evPeer(ports[3], true, q.addr)
+		}
+		w.evChanData(ci, num)
+		if rng.Bool() {
+			w.evCreatePerm(ci, w.newTid(), ok(ci), []peerSpec{other})
+			w.evPeer(ports[3], true, other.addr)
+			oo := other
+			w.evSend(ci, &oo, true)
+		}
+		w.evPeer(ports[3], true, w.peers[0]) // an IPv4 host at an IPv6 relayed address
 	case 6: // retransmitted and conflicting Allocate, expiry, re-allocation on the same relay port
 		l := verifsim.Pick(rng, []int{2, 3, 5})
 		tid := w.newTid()
@@ -1589,7 +1622,10 @@ func runRelayHistory(t *testing.T, rng *verifsim.RNG, prop string, nEvents int) 
 	case 3:
 		cfg.allocLifetime = 2 * time.Hour
 	}
-	cfg.policy = rng.Intn(3)
+	cfg.policy = rng.Intn(4)
+	if prop == "C01" && rng.Chance(25) {
+		cfg.policy = 3 // the deny-list entry for the IPv6 host
+	}
 	if rng.Chance(15) {
 		cfg.quota = 1
 	}
@@ -1625,8 +1661,10 @@ func runRelayHistory(t *testing.T, rng *verifsim.RNG, prop string, nEvents int) 
 			w.template(7, ports) // an allocation owning several channels and permissions ends, by each cause
 		} else if prop == "C08" && rng.Chance(15) {
 			w.template(10, ports) // a channel number changes hands while the old peer keeps sending
+		} else if (prop == "C01" || prop == "C02" || prop == "C05") && rng.Chance(12) {
+			w.template(12, ports) // IPv6 allocation with IPv6 peers
 		} else if rng.Chance(40) {
-			w.template(rng.Intn(12), ports)
+			w.template(rng.Intn(13), ports)
 		}
 		for i := 0; i < nEvents; i++ {
 			ci := rng.Intn(len(w.clients))
